@@ -169,7 +169,15 @@ class Vertex(base.BaseObject):
         if not self.NEIGHBOR_CACHING:
             return self._QA_NB_INVALID
 
-        if args in self.__qa_nb_cache:
+        try:
+            hit = args in self.__qa_nb_cache
+        except TypeError:
+            # an unhashable argument (e.g. a callable filter object that
+            # defines __eq__ but not __hash__) cannot be a cache key; such
+            # queries are simply not cached
+            return self._QA_NB_INVALID
+
+        if hit:
             self._qa_stats()[0] += 1
 
             return self.__qa_nb_cache[args]
@@ -209,8 +217,12 @@ class Vertex(base.BaseObject):
         """
         if not self.NEIGHBOR_CACHING:
             return
+        try:
+            self.__qa_nb_cache[args] = answer
+        except TypeError:
+            # unhashable argument; see _qa_neighbors_get
+            return
         self._qa_stats()[3] += 1
-        self.__qa_nb_cache[args] = answer
 
     def add_to_link(self, link: Link):
         """
